@@ -1,3 +1,22 @@
+/-
+  drv_struct — compiled model driver for the struct language, LEB128 (C16) and the file
+  formats built on it (C14 C15 C20).  Shared by two builders:
+    ops "struct.*" / "leb.*"  → Driver.Struct.handle   (builder `struct`, C16)
+    ops "fmt.*"               → Driver.Fmt.handle      (builder `formats`; add the import and the
+                                                        dispatch line at the two marked places)
+-/
 import Driver.Proto
+import Driver.Struct
+-- [formats builder: add `import Driver.Fmt` here]
+
 open Lean
-def main : IO Unit := Driver.run (fun _ => Driver.jerr "not implemented")
+
+def handleAll (j : Json) : Json :=
+  match Driver.getStr j "op" with
+  | .ok o =>
+    if o.startsWith "struct." || o.startsWith "leb." then Driver.Struct.handle j
+    -- [formats builder: add `else if o.startsWith "fmt." then Driver.Fmt.handle j` here]
+    else Driver.jerr s!"unknown op {o}"
+  | .error e => Driver.jerr e
+
+def main : IO Unit := Driver.run handleAll
